@@ -76,6 +76,12 @@ where
         #[cfg(h3_verif)]
         crate::verif_hooks::preempt("driver:pce:0");
 
+        // Register the waker before looking at the error: an error stored after the check
+        // below finds the waker when it wakes the connection, one stored before is seen by
+        // the check. The other way round, an error stored and announced between the check
+        // and the registration would never wake this task.
+        self.waker().register(cx.waker());
+
         // Check if the connection is in error state
         if let Some(err) = self.get_conn_error() {
             let err = self.close_if_needed(err);
@@ -84,7 +90,6 @@ where
         }
         #[cfg(h3_verif)]
         crate::verif_hooks::preempt("driver:pce:1");
-        self.waker().register(cx.waker());
         #[cfg(h3_verif)]
         crate::verif_hooks::preempt("driver:pce:2");
         Poll::Pending
